@@ -9,25 +9,26 @@ import PrologVerif.Proofs.VMScopedDefs
 namespace PrologVerif.Refine
 open PrologVerif PrologVerif.VM PrologVerif.DecompileCompile PrologVerif.Activation PrologVerif.VMScoped
 
+variable {fl : Bool}
+
 /-- the compiled clause `cl` is the clause with head `h` and body `b` (`true` for a fact) -/
-inductive CRel : Clause → Term → Term → Prop
+inductive CRel (fl : Bool) : Clause → Term → Term → Prop
   | rule {cl : Clause} {h b : Term} {hargs : RepList} {bops : List Op} {gs : List Rep} :
       HeadLayout h cl hargs → cl.code = headCode hargs {} ++ Op.enter :: (bops ++ [Op.exit]) →
       BodySem cl.vars bops gs → gs.map goalTerm = SLD.conjuncts b →
-      (∀ g ∈ gs, g = .atom "!" ∨ hornGoal (goalTerm g) = true) → CRel cl h b
+      (∀ g ∈ gs, g = .atom "!" ∨ stepGoal fl (goalTerm g) = true) → CRel fl cl h b
   | fact {cl : Clause} {h : Term} {hargs : RepList} :
-      HeadLayout h cl hargs → cl.code = headCode hargs {} ++ [Op.exit] → CRel cl h (.atom "true")
+      HeadLayout h cl hargs → cl.code = headCode hargs {} ++ [Op.exit] → CRel fl cl h (.atom "true")
 
-theorem CRel.name {cl : Clause} {h b : Term} (hr : CRel cl h b) :
-    cl.name = functorName h ∧ cl.arity = (argList h).length ∧
-    userPred (functorName h) (argList h).length = true := by
+theorem CRel.name {cl : Clause} {h b : Term} (hr : CRel fl cl h b) :
+    cl.name = functorName h ∧ cl.arity = (argList h).length := by
   cases hr with
-  | rule hl _ _ _ _ => exact ⟨hl.name, hl.arity, hl.user⟩
-  | fact hl _ => exact ⟨hl.name, hl.arity, hl.user⟩
+  | rule hl _ _ _ _ => exact ⟨hl.name, hl.arity⟩
+  | fact hl _ => exact ⟨hl.name, hl.arity⟩
 
 /-- every clause of the fragment compiles to exactly one clause, related to its head and body -/
-theorem horn_crel (c : Term) (hc : clauseOK c = true) :
-    ∃ cl, compile (toRep c) = .ok [cl] ∧ CRel cl (SLD.headBody c).1 (SLD.headBody c).2 := by
+theorem horn_crel (c : Term) (hc : clauseC fl c = true) :
+    ∃ cl, compile (toRep c) = .ok [cl] ∧ CRel fl cl (SLD.headBody c).1 (SLD.headBody c).2 := by
   by_cases hr : ∃ h b, c = .app ":-" (.cons h (.cons b .nil))
   · obtain ⟨h, b, rfl⟩ := hr
     obtain ⟨cl, hargs, bops, gs, hcomp, hl, hcode, hsem, hgs, hg⟩ := horn_rule_layout h b hc
@@ -42,18 +43,71 @@ theorem horn_crel (c : Term) (hc : clauseOK c = true) :
     rw [hhb]
     exact ⟨cl, hcomp, .fact hl hcode⟩
 
+theorem forall2_of_index {α β : Type} {R : α → β → Prop} : ∀ {as : List α} {bs : List β},
+    as.length = bs.length → (∀ (i : Nat) a b, as[i]? = some a → bs[i]? = some b → R a b) → Forall2 R as bs
+  | [], [], _, _ => .nil
+  | [], _ :: _, h, _ => by simp at h
+  | _ :: _, [], h, _ => by simp at h
+  | a :: as, b :: bs, h, hR =>
+    .cons (hR 0 a b rfl rfl) (forall2_of_index (by simpa using h) (fun i a' b' ha hb => hR (i + 1) a' b' (by simpa using ha) (by simpa using hb)))
+
+/-- **a rule whose body has several alternatives** compiles to one clause per alternative, each
+    related to the head and that alternative -/
+theorem rule_layouts (h b : Term) (hwh : wfT h = true) (hwb : wfT b = true) (hh : headOK h = true)
+    (hds : ∀ dj ∈ SLD.disjuncts b, bodyS fl dj = true) :
+    ∃ cs, compile (toRep (.app ":-" (.cons h (.cons b .nil)))) = .ok cs ∧
+      Forall2 (fun cl dj => CRel fl cl h dj) cs (SLD.disjuncts b) := by
+  obtain ⟨hch, hwfh, hname, hargs, _⟩ := hornHead_toRep hh hwh
+  have hwfb := toRep_wf b hwb
+  have hrep : toRep (.app ":-" (.cons h (.cons b .nil))) =
+      .compound ":-" (.cons (toRep h) (.cons (toRep b) .nil)) := by
+    rw [toRep_app_ne_dot _ _ (by decide)]; rfl
+  rw [hrep]
+  have halt := altBodies_disj b
+  cases hcomp : compile (.compound ":-" (.cons (toRep h) (.cons (toRep b) .nil))) with
+  | error e =>
+    exfalso
+    obtain ⟨alt, hm, g, hg, hcg⟩ := (error_statement (toRep h) (toRep b) hwfh hwfb hch).1 ⟨e, hcomp⟩
+    rw [halt, List.mem_map] at hm
+    obtain ⟨dj, hdj, rfl⟩ := hm
+    rw [(bodyOK_goals dj (hds dj hdj) g hg).1] at hcg
+    cases hcg
+  | ok cs =>
+    obtain ⟨hlen, _⟩ := rule_statement (toRep h) (toRep b) cs hwfh hwfb hch hcomp
+    refine ⟨cs, rfl, forall2_of_index (by rw [hlen, halt, List.length_map]) ?_⟩
+    intro i cl dj hcl hdj
+    have hdjm : dj ∈ SLD.disjuncts b := List.mem_of_getElem? hdj
+    have ha : (altBodies (toRep b))[i]? = some (toRep dj) := by
+      rw [halt, List.getElem?_map, hdj]; rfl
+    obtain ⟨bops, hcode, hsem, hpre, hnd, hn, har⟩ :=
+      rule_clause_layout (toRep h) (toRep b) cs hwfh hwfb hch hcomp i cl (toRep dj) hcl ha
+    refine .rule (hargs := headArgs (toRep h))
+      ⟨wfs_headArgs _ hwfh, hpre, hnd, by rw [hn, hname], ?_, hargs, hh⟩ hcode hsem (seqGoals_toRep dj) ?_
+    · rw [har, ← hargs, absArgs_toList_length]
+    · intro g hg
+      exact (bodyOK_goals dj (hds dj hdjm) g hg).2
+
 /-- the clause a term of the fragment compiles to -/
 def clauseOf (c : Term) : Clause :=
   match compile (toRep c) with
   | .ok (c1 :: _) => c1
   | _ => ⟨"", 0, .atom "", [], []⟩
 
-theorem clauseOf_spec (c : Term) (hc : clauseOK c = true) :
-    compile (toRep c) = .ok [clauseOf c] ∧ CRel (clauseOf c) (SLD.headBody c).1 (SLD.headBody c).2 := by
+theorem clauseOf_spec (c : Term) (hc : clauseC fl c = true) :
+    compile (toRep c) = .ok [clauseOf c] ∧ CRel fl (clauseOf c) (SLD.headBody c).1 (SLD.headBody c).2 := by
   obtain ⟨cl, hcomp, hr⟩ := horn_crel c hc
   have : clauseOf c = cl := by simp [clauseOf, hcomp]
   rw [this]
   exact ⟨hcomp, hr⟩
+
+theorem hornHead_user {h : Term} (hh : hornHead h = true) :
+    userPred (functorName h) (argList h).length = true := by
+  cases h with
+  | atom f => simpa [hornHead, functorName, argList] using hh
+  | app f as =>
+    simp only [hornHead, Bool.and_eq_true] at hh
+    simpa [functorName, argList] using hh.2
+  | _ => simp [hornHead] at hh
 
 /-- predicate indicator of the head of a clause term -/
 def headKey (c : Term) : String × Nat :=
@@ -63,9 +117,9 @@ theorem hornHead_functor {h : Term} (hh : hornHead h = true) :
     SLD.functor h = some (functorName h, argList h) := by
   cases h <;> simp_all [hornHead, SLD.functor, functorName, argList]
 
-theorem sameProc_horn (f : String) (n : Nat) (c : Term) (hc : clauseOK c = true) :
+theorem sameProc_horn (f : String) (n : Nat) (c : Term) (hc : clauseS fl c = true) :
     SLD.sameProc f n c = decide (headKey c = (f, n)) := by
-  simp only [clauseOK, Bool.and_eq_true] at hc
+  simp only [clauseS, Bool.and_eq_true] at hc
   simp only [SLD.sameProc, hornHead_functor hc.1.2, headKey]
   by_cases h1 : functorName (SLD.headBody c).1 = f <;> by_cases h2 : (argList (SLD.headBody c).1).length = n <;>
     simp [h1, h2]
@@ -107,24 +161,113 @@ def clausesOf (s : St) (f : String) (n : Nat) : List Clause :=
   | some p => p.clauses
   | none => []
 
-theorem assertStep_horn (s : St) (c : Term) (hc : clauseOK c = true) :
-    assertStep s c =
-      setProc s (clauseOf c).name (clauseOf c).arity
-        { (lookupProc s (clauseOf c).name (clauseOf c).arity).getD { dynamic := true } with
-          clauses := ((lookupProc s (clauseOf c).name (clauseOf c).arity).getD { dynamic := true }).clauses ++ [clauseOf c] } := by
-  unfold assertStep
-  rw [(clauseOf_spec c hc).1]
+theorem Forall2.map_right {α β γ : Type} {R : α → γ → Prop} {f : β → γ} {as : List α} {bs : List β}
+    (h : Forall2 (fun a b => R a (f b)) as bs) : Forall2 R as (bs.map f) := by
+  induction h with
+  | nil => exact .nil
+  | cons hd _ ih => exact .cons hd ih
 
-theorem clauseOf_key (c : Term) (hc : clauseOK c = true) :
-    ((clauseOf c).name, (clauseOf c).arity) = headKey c := by
-  obtain ⟨h1, h2, _⟩ := (clauseOf_spec c hc).2.name
+theorem Forall2.flatMap {α β γ : Type} {R : β → γ → Prop} {f : α → List β} {g : α → List γ} :
+    ∀ (l : List α), (∀ a ∈ l, Forall2 R (f a) (g a)) → Forall2 R (l.flatMap f) (l.flatMap g)
+  | [], _ => .nil
+  | a :: l, h => by
+    rw [List.flatMap_cons, List.flatMap_cons]
+    exact (h a (by simp)).append (Forall2.flatMap l (fun a' ha' => h a' (by simp [ha'])))
+
+theorem Forall2.mem_left {α β : Type} {R : α → β → Prop} {as : List α} {bs : List β} (h : Forall2 R as bs)
+    {a : α} (ha : a ∈ as) : ∃ b ∈ bs, R a b := by
+  induction h with
+  | nil => simp at ha
+  | cons hd _ ih =>
+    rcases List.mem_cons.1 ha with rfl | ha
+    · exact ⟨_, by simp, hd⟩
+    · obtain ⟨b, hb, hr⟩ := ih ha
+      exact ⟨b, by simp [hb], hr⟩
+
+theorem disjuncts_ne_nil (b : Term) : SLD.disjuncts b ≠ [] := by
+  fun_induction SLD.disjuncts b <;> simp
+
+/-- the clauses a clause term compiles to: one per alternative of its body -/
+def compiled (c : Term) : List Clause :=
+  match compile (toRep c) with
+  | .ok cs => cs
+  | _ => []
+
+/-- **a clause of the fragment** compiles to one clause per alternative of its body, each related to
+    the clause `Head :- Alternative` the reference stores -/
+theorem compile_split (c : Term) (hc : clauseS fl c = true) :
+    compile (toRep c) = .ok (compiled c) ∧
+    Forall2 (fun cl r => CRel fl cl (SLD.headBody r).1 (SLD.headBody r).2) (compiled c) (SLD.splitClause c) := by
+  by_cases hr : ∃ h b, c = .app ":-" (.cons h (.cons b .nil))
+  · obtain ⟨h, b, rfl⟩ := hr
+    simp only [clauseS, SLD.headBody, Bool.and_eq_true, wfT, wfAs, Bool.and_true] at hc
+    obtain ⟨⟨⟨hwh, hwb⟩, hh⟩, hb⟩ := hc
+    obtain ⟨cs, hcomp, hrel⟩ := rule_layouts (fl := fl) h b hwh hwb (headOK_of_horn hh)
+      (by simpa [dbodyS, List.all_eq_true] using hb)
+    have hcs : compiled (.app ":-" (.cons h (.cons b .nil))) = cs := by simp [compiled, hcomp]
+    rw [hcs]
+    refine ⟨hcomp, ?_⟩
+    simp only [SLD.splitClause, SLD.headBody]
+    exact Forall2.map_right hrel
+  · have hne : ∀ h b, c ≠ .app ":-" (.cons h (.cons b .nil)) := fun h b heq => hr ⟨h, b, heq⟩
+    have hhb : SLD.headBody c = (c, .atom "true") := by
+      unfold SLD.headBody
+      split
+      · exact absurd rfl (hne _ _)
+      · rfl
+    have hcC : clauseC fl c = true := by
+      simp only [clauseS, hhb, Bool.and_eq_true] at hc
+      simp only [clauseC, hhb, Bool.and_eq_true]
+      refine ⟨⟨hc.1.1, headOK_of_horn hc.1.2⟩, ?_⟩
+      simp [bodyS, SLD.conjuncts, SLD.wrapVar, goalS, stepGoal, hornGoal]
+    obtain ⟨cl, hargs, hcomp, hl, hcode⟩ := horn_fact_layout c hcC hne
+    have hcs : compiled c = [cl] := by simp [compiled, hcomp]
+    rw [hcs]
+    refine ⟨hcomp, ?_⟩
+    have hsp : SLD.splitClause c = [SLD.rule c (.atom "true")] := by
+      simp [SLD.splitClause, hhb, SLD.disjuncts]
+    rw [hsp]
+    exact .cons (.fact hl hcode) .nil
+
+theorem split_head {c r : Term} (h : r ∈ SLD.splitClause c) : (SLD.headBody r).1 = (SLD.headBody c).1 := by
+  simp only [SLD.splitClause, List.mem_map] at h
+  obtain ⟨dj, _, rfl⟩ := h
+  rfl
+
+theorem compiled_key (c : Term) (hc : clauseS fl c = true) :
+    ∀ cl ∈ compiled c, (cl.name, cl.arity) = headKey c := by
+  intro cl hcl
+  obtain ⟨r, hr, hcr⟩ := (compile_split c hc).2.mem_left hcl
+  obtain ⟨h1, h2⟩ := hcr.name
+  rw [split_head hr] at h1 h2
   simp [headKey, h1, h2]
 
-/-- **the table after asserting a Horn program**: for every predicate indicator, whether it is
+theorem compiled_ne (c : Term) (hc : clauseS fl c = true) : compiled c ≠ [] := by
+  intro h
+  have := (compile_split c hc).2.length_eq
+  rw [h] at this
+  simp only [List.length_nil, SLD.splitClause, List.length_map] at this
+  exact disjuncts_ne_nil _ (List.length_eq_zero_iff.1 this.symm)
+
+theorem assertStep_S (s : St) (c : Term) (hc : clauseS fl c = true) :
+    assertStep s c =
+      setProc s (headKey c).1 (headKey c).2
+        { (lookupProc s (headKey c).1 (headKey c).2).getD { dynamic := true } with
+          clauses := ((lookupProc s (headKey c).1 (headKey c).2).getD { dynamic := true }).clauses ++ compiled c } := by
+  unfold assertStep
+  rw [(compile_split c hc).1]
+  cases hcs : compiled c with
+  | nil => exact absurd hcs (compiled_ne c hc)
+  | cons c1 cs =>
+    have := compiled_key c hc c1 (by rw [hcs]; simp)
+    simp only [Prod.ext_iff] at this
+    simp only [this.1, this.2]
+
+/-- **the table after asserting a program**: for every predicate indicator, whether it is
     defined and with which clauses, in terms of the program clauses with that head, in order -/
-theorem foldl_assert (f : String) (n : Nat) : ∀ (prog : List Term) (s : St), (∀ c ∈ prog, clauseOK c = true) →
+theorem foldl_assert (f : String) (n : Nat) : ∀ (prog : List Term) (s : St), (∀ c ∈ prog, clauseS fl c = true) →
     clausesOf (prog.foldl assertStep s) f n =
-      clausesOf s f n ++ (prog.filter (fun c => decide (headKey c = (f, n)))).map clauseOf ∧
+      clausesOf s f n ++ (prog.filter (fun c => decide (headKey c = (f, n)))).flatMap compiled ∧
     ((lookupProc (prog.foldl assertStep s) f n).isSome =
       ((lookupProc s f n).isSome || !(prog.filter (fun c => decide (headKey c = (f, n)))).isEmpty))
   | [], s, _ => by simp
@@ -132,18 +275,15 @@ theorem foldl_assert (f : String) (n : Nat) : ∀ (prog : List Term) (s : St), (
     have hc := h c (by simp)
     obtain ⟨ih1, ih2⟩ := foldl_assert f n prog (assertStep s c) (fun c' hc' => h c' (by simp [hc']))
     rw [List.foldl_cons, ih1, ih2]
-    have hkey := clauseOf_key c hc
-    rw [assertStep_horn s c hc]
+    rw [assertStep_S s c hc]
     by_cases hk : headKey c = (f, n)
-    · have hk' : ((clauseOf c).name, (clauseOf c).arity) = (f, n) := by rw [hkey, hk]
-      simp only [Prod.mk.injEq] at hk'
-      obtain ⟨hk1, hk2⟩ := hk'
+    · have hk1 : (headKey c).1 = f := by rw [hk]
+      have hk2 : (headKey c).2 = n := by rw [hk]
       rw [hk1, hk2]
       simp only [clausesOf, lookupProc_setProc, if_true, List.filter_cons, hk, decide_true,
-        List.map_cons, Option.isSome_some, Bool.true_or, List.isEmpty_cons, Bool.not_false, Bool.or_true, and_true]
+        List.flatMap_cons, Option.isSome_some, Bool.true_or, List.isEmpty_cons, Bool.not_false, Bool.or_true, and_true]
       cases lookupProc s f n <;> simp
-    · have hk' : ¬ (f, n) = ((clauseOf c).name, (clauseOf c).arity) := by
-        rw [hkey]; exact fun e => hk e.symm
+    · have hk' : ¬ (f, n) = ((headKey c).1, (headKey c).2) := fun e => hk e.symm
       simp only [clausesOf, lookupProc_setProc, if_neg hk', List.filter_cons, hk, decide_false]
       simp
 
@@ -157,11 +297,11 @@ theorem lookupProc_cancel (s : St) (c : Option Nat) (f : String) (n : Nat) :
 
 /-- a user predicate after loading: unknown iff no clause of the program has that head; otherwise
     its clauses are the compiled forms of those clauses, in order -/
-theorem lookup_user (prog : List Term) (hp : ∀ c ∈ prog, clauseOK c = true) (f : String) (n : Nat)
+theorem lookup_user (prog : List Term) (hp : ∀ c ∈ prog, clauseS fl c = true) (f : String) (n : Nat)
     (hu : userPred f n = true) :
     (lookupProc (initState prog none) f n = none ↔ prog.filter (fun c => decide (headKey c = (f, n))) = []) ∧
     (∀ p, lookupProc (initState prog none) f n = some p →
-      p.clauses = (prog.filter (fun c => decide (headKey c = (f, n)))).map clauseOf) := by
+      p.clauses = (prog.filter (fun c => decide (headKey c = (f, n)))).flatMap compiled) := by
   have hboot : lookupProc { bootState with cancelAt := none } f n = none := by
     simp only [userPred, Bool.and_eq_true, Option.isNone_iff_eq_none] at hu
     rw [lookupProc_cancel]; exact hu.2
@@ -183,7 +323,7 @@ theorem lookup_user (prog : List Term) (hp : ∀ c ∈ prog, clauseOK c = true) 
     exact h1
 
 /-- predicates the program does not define keep their bootstrap definition -/
-theorem lookup_other (prog : List Term) (hp : ∀ c ∈ prog, clauseOK c = true) (f : String) (n : Nat)
+theorem lookup_other (prog : List Term) (hp : ∀ c ∈ prog, clauseS fl c = true) (f : String) (n : Nat)
     (hu : userPred f n = false) :
     lookupProc (initState prog none) f n = lookupProc bootState f n := by
   have hnil : prog.filter (fun c => decide (headKey c = (f, n))) = [] := by
@@ -191,17 +331,19 @@ theorem lookup_other (prog : List Term) (hp : ∀ c ∈ prog, clauseOK c = true)
     intro c hc
     simp only [decide_eq_true_eq]
     intro hk
-    have := ((clauseOf_spec c (hp c hc)).2.name).2.2
+    have hcs := hp c hc
+    simp only [clauseS, Bool.and_eq_true] at hcs
+    have := (hornHead_user hcs.1.2)
     simp only [headKey, Prod.mk.injEq] at hk
     rw [hk.1, hk.2, hu] at this
     cases this
   obtain ⟨h1, h2⟩ := foldl_assert f n prog { bootState with cancelAt := none } hp
   rw [initState_eq]
-  simp only [hnil, List.map_nil, List.append_nil, List.isEmpty_nil, Bool.not_true, Bool.or_false,
+  simp only [hnil, List.flatMap_nil, List.append_nil, List.isEmpty_nil, Bool.not_true, Bool.or_false,
     lookupProc_cancel] at h1 h2
   -- same clauses, same definedness: and the Proc record itself is untouched — go through the fold again
   clear h1 h2
-  have key : ∀ (prog : List Term) (s : St), (∀ c ∈ prog, clauseOK c = true) →
+  have key : ∀ (prog : List Term) (s : St), (∀ c ∈ prog, clauseS fl c = true) →
       prog.filter (fun c => decide (headKey c = (f, n))) = [] →
       lookupProc (prog.foldl assertStep s) f n = lookupProc s f n := by
     intro prog
@@ -214,52 +356,15 @@ theorem lookup_other (prog : List Term) (hp : ∀ c ∈ prog, clauseOK c = true)
         intro hk
         simp [hk] at hnil
       rw [List.foldl_cons, ih (assertStep s c) (fun c' hc' => hp c' (by simp [hc']))
-        (by simpa [List.filter_cons, hk] using hnil), assertStep_horn s c hc, lookupProc_setProc]
-      have hk' : ¬ (f, n) = ((clauseOf c).name, (clauseOf c).arity) := by
-        rw [clauseOf_key c hc]; exact fun e => hk e.symm
+        (by simpa [List.filter_cons, hk] using hnil), assertStep_S s c hc, lookupProc_setProc]
+      have hk' : ¬ (f, n) = ((headKey c).1, (headKey c).2) := fun e => hk e.symm
       rw [if_neg hk']
   rw [key prog _ hp hnil, lookupProc_cancel]
 
 /-! ## the reference's clause list -/
 
-theorem disjuncts_horn (b : Term) (h : bodyOK b = true) : SLD.disjuncts b = [b] := by
-  unfold SLD.disjuncts
-  split
-  · rename_i c t e
-    exfalso
-    have : SLD.conjuncts (SLD.mk2 ";" (SLD.mk2 "->" c t) e) = [SLD.mk2 ";" (SLD.mk2 "->" c t) e] := by
-      simp [SLD.conjuncts, SLD.wrapVar, SLD.mk2]
-    simp only [SLD.mk2] at this
-    simp only [bodyOK, this, List.all_cons, List.all_nil, Bool.and_true] at h
-    rcases cutGoal_cases h with h | h
-    · simp [SLD.mk2] at h
-    rcases hornGoal_shape h with ⟨f, hf', _⟩ | ⟨a, b, hab⟩ | ⟨f, as, hfa, hu, _⟩
-    · cases hf'
-    · simp at hab
-    · simp only [Term.app.injEq] at hfa
-      obtain ⟨rfl, rfl⟩ := hfa
-      exact reserved_not_user hu (by decide)
-  · rename_i a b' _
-    exfalso
-    have : SLD.conjuncts (.app ";" (.cons a (.cons b' .nil))) = [.app ";" (.cons a (.cons b' .nil))] := by
-      simp [SLD.conjuncts, SLD.wrapVar]
-    simp only [bodyOK, this, List.all_cons, List.all_nil, Bool.and_true] at h
-    rcases cutGoal_cases h with h | h
-    · simp [SLD.mk2] at h
-    rcases hornGoal_shape h with ⟨f, hf', _⟩ | ⟨a, b, hab⟩ | ⟨f, as, hfa, hu, _⟩
-    · cases hf'
-    · simp at hab
-    · simp only [Term.app.injEq] at hfa
-      obtain ⟨rfl, rfl⟩ := hfa
-      exact reserved_not_user hu (by decide)
-  · rfl
-
 /-- the clause as the reference stores it: `Head :- Body` -/
 def ruleOf (c : Term) : Term := SLD.rule (SLD.headBody c).1 (SLD.headBody c).2
-
-theorem splitClause_horn (c : Term) (hc : clauseOK c = true) : SLD.splitClause c = [ruleOf c] := by
-  simp only [clauseOK, Bool.and_eq_true] at hc
-  simp [SLD.splitClause, disjuncts_horn _ hc.2, ruleOf]
 
 theorem headBody_rule (h b : Term) : SLD.headBody (SLD.rule h b) = (h, b) := rfl
 
@@ -285,18 +390,37 @@ theorem sameProc_library (f : String) (n : Nat) (hf : f ∉ reservedNames) :
   · rw [sameProc_of_functor (g := "append") (as := _) rfl, h2]; simp
   · rw [sameProc_of_functor (g := "append") (as := _) rfl, h2]; simp
 
-/-- the reference's clauses for a user predicate: the program clauses with that head, in order -/
-theorem sld_filter (prog : List Term) (hp : ∀ c ∈ prog, clauseOK c = true) (f : String) (n : Nat)
+theorem ruleOf_split {c r : Term} (h : r ∈ SLD.splitClause c) : ruleOf r = r := by
+  simp only [SLD.splitClause, List.mem_map] at h
+  obtain ⟨dj, _, rfl⟩ := h
+  rfl
+
+theorem sameProc_split {f : String} {n : Nat} {c r : Term} (h : r ∈ SLD.splitClause c) :
+    SLD.sameProc f n r = SLD.sameProc f n c := by
+  simp only [SLD.sameProc, split_head h]
+
+/-- the reference's clauses for a user predicate: the alternatives of the program clauses with that
+    head, in order -/
+theorem sld_filter (prog : List Term) (hp : ∀ c ∈ prog, clauseS fl c = true) (f : String) (n : Nat)
     (hf : f ∉ reservedNames) :
     (prog.flatMap SLD.splitClause ++ SLD.library).filter (SLD.sameProc f n) =
-      (prog.filter (fun c => decide (headKey c = (f, n)))).map ruleOf := by
+      (prog.filter (fun c => decide (headKey c = (f, n)))).flatMap SLD.splitClause := by
   rw [List.filter_append, sameProc_library f n hf, List.append_nil]
   induction prog with
   | nil => rfl
   | cons c prog ih =>
     have hc := hp c (by simp)
-    rw [List.flatMap_cons, List.filter_append, ih (fun c' hc' => hp c' (by simp [hc'])),
-      splitClause_horn c hc, List.filter_cons, List.filter_cons, sameProc_ruleOf, sameProc_horn f n c hc]
+    rw [List.flatMap_cons, List.filter_append, ih (fun c' hc' => hp c' (by simp [hc'])), List.filter_cons]
+    have hsp : (SLD.splitClause c).filter (SLD.sameProc f n) =
+        if headKey c = (f, n) then SLD.splitClause c else [] := by
+      by_cases hk : headKey c = (f, n)
+      · rw [if_pos hk, List.filter_eq_self]
+        intro r hr
+        rw [sameProc_split hr, sameProc_horn f n c hc]; simpa using hk
+      · rw [if_neg hk, List.filter_eq_nil_iff]
+        intro r hr
+        rw [sameProc_split hr, sameProc_horn f n c hc]; simpa using hk
+    rw [hsp]
     by_cases hk : headKey c = (f, n) <;> simp [hk]
 
 end PrologVerif.Refine
